@@ -46,13 +46,22 @@ def mutate_schema(draw, d, s):
 @st.composite
 def cases(draw):
     d = draw(st.sampled_from(impl.DRAFTS))
-    src = draw(st.sampled_from(["well-meant", "mutated", "mutated", "liberal", "liberal", "arbitrary", "metaschema"]))
+    src = draw(st.sampled_from(["well-meant", "mutated", "mutated", "liberal", "liberal", "arbitrary", "metaschema",
+                                "deep"]))
     if src == "well-meant":
         c = draw(GS.root_schemas(d, 8))
     elif src == "mutated":
         c = draw(mutate_schema(d, draw(GS.root_schemas(d, 8))))
     elif src == "liberal":
         c = draw(GS.liberal(d, 6))
+    elif src == "deep":
+        # a (possibly faulty) keyword below many levels of well-formed nesting: the metaschema applies at any depth
+        c = draw(st.sampled_from([{"minLength": 1}, {"minLength": "x"}, {"type": 12}, {"type": "string"}, {"items": 5},
+                                  {"maxItems": -1}, {"enum": []} if d >= 6 else {"maxLength": 2}, {"required": 7}]))
+        for _ in range(draw(st.integers(25, 90))):
+            k = draw(st.sampled_from(["additionalProperties", "items", "properties", "not" if d >= 4 else "extends",
+                                      "allOf" if d >= 4 else "extends", "additionalItems"]))
+            c = {k: {"p": c}} if k == "properties" else {k: [c]} if k == "allOf" else {k: c}
     elif src == "arbitrary":
         c = draw(st.one_of(V.values(8, wide=True), GS.ODD))
     else:
